@@ -89,8 +89,8 @@ def generate(X):
     handled = {C.name_of(f) for f in AF._HANDLED_FUNCTIONS}
 
     # ---------------------------------------------------------------- dynamic probe
-    rows = {}
-    order = []
+    byform = {}
+    forder = []
     for t in C.templates("function"):
         f = C.canonical_func(t)
         if f not in handled:
@@ -103,15 +103,35 @@ def generate(X):
                         r = P.probe_case(t, dk, sc, seed, om)
                         if r is None:
                             continue
-                        if r["outcome"] == "ok":
-                            struct = tuple((lf["carries"], lf["expo"] is None) for lf in r["leaves"])
-                        else:
-                            struct = r["outcome"]
-                        key = (f, t.variant, om, P.form_of(r), struct)
-                        if key not in rows:
-                            rows[key] = []
-                            order.append(key)
-                        rows[key].append(r)
+                        k = (f, t.variant, om, P.form_of(r))
+                        if k not in byform:
+                            byform[k] = []
+                            forder.append(k)
+                        byform[k].append(r)
+
+    def tail_pattern(lv):
+        return len(lv) >= 2 and all((x["carries"], x["cls"], x["expo"]) == (lv[1]["carries"], lv[1]["cls"], lv[1]["expo"]) for x in lv[2:])
+
+    rows = {}
+    order = []
+    for k in forder:
+        oks = [r for r in byform[k] if r["outcome"] == "ok"]
+        # the number of leaves varies with the shapes and every result is  h, r, r, r, …  (one leaf per row
+        # of an operand): collapse to  h, r  with `tailRepeats`
+        collapse = len({len(r["leaves"]) for r in oks}) > 1 and all(tail_pattern(r["leaves"]) for r in oks)
+        for r in byform[k]:
+            if r["outcome"] == "ok":
+                if collapse:
+                    r["leaves"] = r["leaves"][:2]
+                    r["tail_repeats"] = True
+                struct = (r.get("tail_repeats", False),) + tuple((lf["carries"], lf["expo"] is None) for lf in r["leaves"])
+            else:
+                struct = r["outcome"]
+            key = k + (struct,)
+            if key not in rows:
+                rows[key] = []
+                order.append(key)
+            rows[key].append(r)
 
     # ---------------------------------------------------------------- function-wide fit of varying exponents
     def observations(recs, li, g):
@@ -199,7 +219,8 @@ def generate(X):
                 out_label = [(k[1:], leaf_expo(key, 0, k[1:]) if k != "sout" else ("unknown",)) for k in names]
         out_rows.append(dict(func=f, variant=variant, out_mode=om, operands=r0["operands"], flags=r0["flags"], raised=raised,
                              exc="|".join(sorted({r["outcome"].split(":", 1)[1] for r in recs})) if raised else "",
-                             leaves=leaves, out_label=out_label, n=len(recs), form=form))
+                             leaves=leaves, out_label=out_label, n=len(recs), form=form,
+                             tail_repeats=bool(not raised and r0.get("tail_repeats", False))))
 
     statics = _static_expos(AF, C)
 
@@ -216,7 +237,7 @@ def generate(X):
         lv = ", ".join(f"⟨{'true' if c else 'false'}, {L(cls)}, {llabel(ex)}⟩" for c, cls, ex in r["leaves"])
         ol = "none" if r["out_label"] is None else f"some {llabel(r['out_label'])}"
         return (f"  ⟨{L(r['func'])}, {L(r['variant'])}, {L(r['out_mode'])}, [{ops}], [{fl}], {'true' if r['raised'] else 'false'}, "
-                f"{L(r['exc'])}, [{lv}], {ol}, {r['n']}⟩")
+                f"{L(r['exc'])}, [{lv}], {ol}, {'true' if r['tail_repeats'] else 'false'}, {r['n']}⟩")
 
     nchunk = 4
     per = (len(out_rows) + nchunk - 1) // nchunk
@@ -240,7 +261,7 @@ def generate(X):
         "handled": sorted(handled),
         "statics": [(f, P.expo_wire(e)) for f, e in statics],
         "rows": [dict(func=r["func"], variant=r["variant"], out_mode=r["out_mode"], form=r["form"], operands=r["operands"],
-                      flags=r["flags"], raised=r["raised"], exc=r["exc"], n=r["n"],
+                      flags=r["flags"], raised=r["raised"], exc=r["exc"], n=r["n"], tail_repeats=r["tail_repeats"],
                       leaves=[dict(carries=c, cls=cls, expo=[(g, P.expo_wire(e)) for g, e in ex]) for c, cls, ex in r["leaves"]],
                       out_label=None if r["out_label"] is None else [(g, P.expo_wire(e)) for g, e in r["out_label"]])
                  for r in out_rows],
